@@ -9,7 +9,9 @@ for d in sorted(glob.glob('/verif/seeded/C*-*')):
     n=os.path.basename(d)
     det=[l for l in open(d+'/detection.txt').read().split('\n') if 'exit=1' in l] if os.path.exists(d+'/detection.txt') else []
     checks=sorted(set(l.split()[0].split('(')[0] for l in det))
-    for c in checks: print(n,c)
+    for c in checks:
+        race = any(('key=race' in l or 'key=harness:race' in l) and l.startswith(c) for l in det)
+        print(n,c,1 if race else 0)
 PY
-cat scratch/matrix.jobs | SC_NOAPPEND=1 xargs -P $P -L 1 sh -c 'r=$(SC_NOAPPEND=1 tools/seedcheck.sh $0 $1 2>/dev/null | tail -1); echo "$0 $r"' > scratch/matrix.txt 2>&1
+cat scratch/matrix.jobs | SC_NOAPPEND=1 xargs -P $P -L 1 sh -c 'r=$(SC_NOAPPEND=1 SC_RACE=$2 tools/seedcheck.sh $0 $1 2>/dev/null | tail -1); echo "$0 $r"' > scratch/matrix.txt 2>&1
 echo done >> scratch/matrix.txt
